@@ -154,7 +154,17 @@ class Flow(object):
                     return MergedDict(snames)
                 else:
                     outer_names = set(snames).difference(self.scope.locals)
-                    return {n: snames[n] for n in outer_names}
+                    names = {n: snames[n] for n in outer_names}
+                    if self.scope.globals:
+                        # declared global: module level names, not the ones
+                        # of enclosing functions
+                        top_names = self.scope.top.names
+                        for n in self.scope.globals:
+                            if n in top_names:
+                                names[n] = top_names[n]
+                            else:
+                                names.pop(n, None)
+                    return names
             else:
                 return {}
 
